@@ -646,6 +646,10 @@ def subscript(ex, v, idx, st, ctx, node=None):
     if isinstance(v, SeqVal):
         if idx is None:
             return v
+        if isinstance(idx, slice) and idx.start is None and idx.stop is None and isinstance(idx.step, int) and idx.step == -1:
+            # a[::-1]: the whole array in reverse order
+            i = z3.Int(fresh_name("i"))
+            return SeqVal(z3.Lambda([i], z3.Select(v.arr, v.length - 1 - i)), v.length, v.elem)
         if isinstance(idx, slice):
             lo, hi = idx.start, idx.stop
             if idx.step is not None and not (isinstance(idx.step, int) and idx.step == 1 and (lo is None or (isinstance(lo, int) and lo == 0))):
